@@ -121,6 +121,11 @@ def run(ctx, R, tier):
             ok = False
             why = "the worker is not given the submitted job"
     R.check(ok, "C18-R3", "Pool.process|exactly-one-handoff", "exactly one worker.process(job) on every non-raising path", proc.loc(), why)
+    adds = [n for n in walk_no_nested(proc.node) if isinstance(n, ast.Call) and unparse(n.func) == "self.busy.add"]
+    same = bool(hand) and bool(adds) and in_lock_region(hand[0], LOCK) is not None and in_lock_region(hand[0], LOCK) is in_lock_region(adds[0], LOCK)
+    R.check(same, "C18-R3", "Pool.process|handoff-in-selection-region", "the job is handed to the chosen worker inside the lock region that chose it", proc.loc(hand[0]) if hand else proc.loc(),
+            "the worker is picked under count_lock but the job is handed over after the lock was released: a close() in between tells that worker to stop, and the accepted "
+            "connection is neither served nor refused (or a job starts after the pool was closed)")
     es = ctx.escape
     raises = [n for n in cfg.nodes if n.kind == "stmt" and isinstance(n.ast, ast.Raise)]
     classes = set()
